@@ -1,7 +1,7 @@
 // witness unit: igris::dlist_node / dlist_base / dlist<T,&T::lnk> / slist<T,&T::lnk>
 #include <igris/container/dlist.h>
 #include <igris/container/slist.h>
-#include "../../repo/igris/container/dlist.cpp" // dlist_node::unlink is defined out of line
+#include <igris/container/dlist.cpp> // dlist_node::unlink is defined out of line
 
 struct VItem
 {
